@@ -51,9 +51,42 @@ template<class P> void run(const char* pn, bool before) {
     report(id + ".usable", back_home && full && g_caught == 0, "C12", "after f home=" + std::to_string(back_home) + " second e log=[" + g_log + "] ret=" + std::to_string(r2));
   }
 }
+// ---- a substate entry of a SUBMACHINE throws while the submachine is being entered (C12 "not wedged", C04): under
+// active_state_switch_before_transition the submachine is the active state afterwards and must handle later events normally ----
+struct enter {}; struct ev2 {};
+static bool g_sub_throw = false;
+struct SubW_ : state_machine_def<SubW_> {
+  struct I : state<> { template<class E,class F> void on_entry(E const&,F&){ g_log += "I.entry "; if (g_sub_throw) { g_sub_throw = false; throw std::runtime_error("x"); } } };
+  struct J : state<> {};
+  typedef I initial_state;
+  struct ActJ { template<class E,class F,class S,class T> void operator()(E const&,F&,S&,T&){ g_log += "j "; } };
+  struct transition_table : mpl::vector< Row<I,ev2,J,ActJ,none> > {};
+  template<class F,class Ev> void no_transition(Ev const&,F&,int){ g_log += "NTsub "; }
+  template<class F,class Ev> void exception_caught(Ev const&,F&,std::exception&){ g_log += "CAUGHTsub "; }
+};
+typedef BE<SubW_> SubW;
+struct TopW_ : state_machine_def<TopW_> {
+  typedef msm::active_state_switch_before_transition active_state_switch_policy;
+  struct O : state<> {};
+  typedef O initial_state;
+  struct transition_table : mpl::vector< Row<O,enter,SubW,none,none> > {};
+  template<class F,class Ev> void no_transition(Ev const&,F&,int){ g_log += "NT "; }
+  template<class F,class Ev> void exception_caught(Ev const&,F&,std::exception&){ g_log += "CAUGHT "; }
+};
+typedef BE<TopW_> TopW;
+static void run_sub_entry_throws() {
+  TopW m; m.start(); g_log.clear(); g_sub_throw = true;
+  bool escaped = false; int r = -1; try { r = (int)m.process_event(enter()); } catch (...) { escaped = true; }
+  g_log += "| "; int r2 = -1, r3 = -1;
+  try { r2 = (int)m.process_event(ev2()); r3 = (int)m.process_event(ev2()); } catch (...) { escaped = true; }
+  // the fault is caught once by the machine that processed `enter`; afterwards the (active) submachine handles ev2 at once, the second ev2 is unhandled in J (reported by the root machine)
+  report("sub-entry-throws.not-wedged", !escaped && r == 0 && g_log == "I.entry CAUGHT | j NT " && (r2 & 1) && !(r3 & 1), "C12,C04",
+         "r=" + std::to_string(r) + " r2=" + std::to_string(r2) + " r3=" + std::to_string(r3) + " log=[" + g_log + "]");
+}
 int main(int argc, char** argv) {
   if (argc > 1) g_only = argv[1];
   run<msm::active_state_switch_after_entry>("after_entry", false);
   run<msm::active_state_switch_before_transition>("before_transition", true);
+  run_sub_entry_throws();
   return finish();
 }
